@@ -7,16 +7,18 @@
 (*                                                                         *)
 (* goroutine          actions                                  code         *)
 (* callers            CallStart CallExitErr CallReturn         client.go doRequest / handleRpcCall retry loop *)
-(*                    CtxCancel CancelEnq SubCtxCancel          client.go 368-389, websocket.go handleCtxAsync *)
+(*                    CtxCancel CancelArm CancelGiveUp          client.go doRequest: case <-ctx.Done()    *)
+(* ctx watcher        SubCtxCancel                              websocket.go handleCtxAsync (one per registered channel) *)
 (* main loop          MainRecvReq MainReqCheck MainWrite        websocket.go handleWsConn: case req := <-c.requests *)
 (*                    MainNotifDone                                                                       *)
 (*                    MainIncomingMsg MainIncomingClosed        case r, ok := <-c.incoming                *)
 (*                    MainReadError                             case rerr := <-c.readError                *)
 (*                    MainCloseChans MainSpawnRedial            tryReconnect: closeInFlight, closeChans, go redial *)
-(*                    MainStop MainExitWaitExec MainExitChans   case <-c.stop + deferred closeChans, closeInFlight, *)
+(*                    MainStop MainStopClose MainExitWaitExec MainExitChans   case <-c.stop + deferred closeChans, closeInFlight, *)
 (*                    MainExitInFlight                          close(exiting)                            *)
 (* reader             RdNext RdErr RdFrameOk RdFrameFail        nextMessage / readFrame                   *)
-(* executor           ExPop ExRegChan ExDeliver ExDelete        frameExecutor / handleResponse / handleChanMessage / handleChanClose *)
+(* executor           ExPop ExLookup ExRegChan ExDeliver        frameExecutor / handleResponse / handleChanMessage / handleChanClose *)
+(*                    ExDelete                                                                            *)
 (* redial             RcDial RcSwap RcAbort                     tryReconnect goroutine                    *)
 (* buffer goroutine   BufDeliver BufClose BufCtxClose           client.go makeOutChan                     *)
 (* server (abstract)  SrvRecv SrvRespond SrvChanStep SrvConnEnd server side of the same code, collapsed    *)
@@ -31,6 +33,9 @@
 (* call-never-returned (structural form); OwnValuesPrefix = C07/C08         *)
 (* foreign / ordered / prefix; ClosedOnce = C08; ClosedAfterExit = C18/C08  *)
 (* channel-never-closed; CtxDoneOnlyIfCancelled = C06.                      *)
+(*                                                                         *)
+(* WsRpcTrace.tla binds these actions to the hook events of recorded real   *)
+(* executions (one trace line per linearization point).                     *)
 (***************************************************************************)
 EXTENDS Naturals, Sequences, FiniteSets, TLC
 
@@ -51,7 +56,7 @@ Gens  == 0..MaxGen
 
 VARIABLES
   \* callers
-  cst, cres, ready, attempts, cancelled, cancelSt,
+  cst, cres, ready, attempts, cancelled, cancelSt, watch,
   \* client connection state
   inflight, gen, incErr, rd, rdGen, rdMsg, execQ, ex, mainpc, rc, readErrCh, stopped, exited,
   \* client channel handling
@@ -61,7 +66,7 @@ VARIABLES
   \* server (abstract)
   srvRun, srvCtx, chanCtr, srvCh, execs, wireReq, idOnWire
 
-callerVars == <<cst, cres, ready, attempts, cancelled, cancelSt>>
+callerVars == <<cst, cres, ready, attempts, cancelled, cancelSt, watch>>
 connVars   == <<inflight, gen, incErr, rd, rdGen, rdMsg, execQ, ex, mainpc, rc, readErrCh, stopped, exited>>
 chanVars   == <<chanH, sinkSt, sinkQ, recv>>
 netVars    == <<c2s, s2c, link, cut, faults>>
@@ -74,7 +79,7 @@ Ok(k)   == <<"ok", k>>
 
 Init ==
   /\ cst = [k \in Calls |-> "idle"] /\ cres = [k \in Calls |-> <<"none">>] /\ ready = [k \in Calls |-> <<>>]
-  /\ attempts = [k \in Calls |-> 1] /\ cancelled = [k \in Calls |-> FALSE] /\ cancelSt = [k \in Calls |-> "none"]
+  /\ attempts = [k \in Calls |-> 1] /\ cancelled = [k \in Calls |-> FALSE] /\ cancelSt = [k \in Calls |-> "none"] /\ watch = [k \in Calls |-> "none"]
   /\ inflight = {} /\ gen = 0 /\ incErr = FALSE /\ rd = "wait" /\ rdGen = 0 /\ rdMsg = <<"none">>
   /\ execQ = <<>> /\ ex = <<"idle">> /\ mainpc = <<"select">> /\ rc = "none" /\ readErrCh = 0 /\ stopped = FALSE /\ exited = FALSE
   /\ chanH = {} /\ sinkSt = [k \in Subs |-> "none"] /\ sinkQ = [k \in Subs |-> <<>>] /\ recv = [k \in Subs |-> <<>>]
@@ -88,11 +93,11 @@ AtSelect == mainpc = <<"select">>
 (* ================================ callers ================================ *)
 \* client.go handleRpcCall -> sendRequest -> doRequest: about to send on the unbuffered requests channel
 CallStart(k) == /\ cst[k] = "idle" /\ cst' = [cst EXCEPT ![k] = "enq"]
-                /\ UNCHANGED <<cres, ready, attempts, cancelled, cancelSt, connVars, chanVars, netVars, srvVars>>
+                /\ UNCHANGED <<cres, ready, attempts, cancelled, cancelSt, watch, connVars, chanVars, netVars, srvVars>>
 \* case <-c.exiting: return error
 CallExitErr(k) == /\ cst[k] = "enq" /\ exited
                   /\ cst' = [cst EXCEPT ![k] = "done"] /\ cres' = [cres EXCEPT ![k] = ExitErr]
-                  /\ UNCHANGED <<ready, attempts, cancelled, cancelSt, connVars, chanVars, netVars, srvVars>>
+                  /\ UNCHANGED <<ready, attempts, cancelled, cancelSt, watch, connVars, chanVars, netVars, srvVars>>
 \* resp = <-cr.ready; retry-tagged calls loop while they get the connection error
 CallReturn(k) == /\ cst[k] = "wait" /\ Len(ready[k]) > 0
                  /\ LET r == Head(ready[k]) IN
@@ -101,34 +106,37 @@ CallReturn(k) == /\ cst[k] = "wait" /\ Len(ready[k]) > 0
                          /\ attempts' = [attempts EXCEPT ![k] = @ + 1] /\ UNCHANGED cres
                     ELSE /\ cst' = [cst EXCEPT ![k] = "done"] /\ cres' = [cres EXCEPT ![k] = r]
                          /\ ready' = [ready EXCEPT ![k] = Tail(@)] /\ UNCHANGED attempts
-                 /\ UNCHANGED <<cancelled, cancelSt, connVars, chanVars, netVars, srvVars>>
+                 /\ UNCHANGED <<cancelled, cancelSt, watch, connVars, chanVars, netVars, srvVars>>
 \* the caller's context is cancelled (application)
-CtxCancel(k) == /\ AllowCancel /\ ~cancelled[k] /\ cst[k] # "idle" /\ k \notin Notifs
+\* (also before the call is issued: a caller may come with an already cancelled context)
+CtxCancel(k) == /\ AllowCancel /\ ~cancelled[k] /\ k \notin Notifs
                 /\ cancelled' = [cancelled EXCEPT ![k] = TRUE]
-                /\ cancelSt' = [cancelSt EXCEPT ![k] = IF cst[k] = "wait" THEN "enq" ELSE IF cst[k] = "done" /\ k \in Subs /\ cres[k] = Ok(k) THEN "async" ELSE @]
-                /\ UNCHANGED <<cst, cres, ready, attempts, connVars, chanVars, netVars, srvVars>>
+                /\ cancelSt' = [cancelSt EXCEPT ![k] = IF cst[k] = "wait" THEN "enq" ELSE @]
+                /\ UNCHANGED <<cst, cres, ready, attempts, watch, connVars, chanVars, netVars, srvVars>>
 \* a caller that starts waiting with an already cancelled context sends the cancel request as soon as it waits
 CancelArm(k) == /\ cancelled[k] /\ cancelSt[k] = "none" /\ cst[k] = "wait"
                 /\ cancelSt' = [cancelSt EXCEPT ![k] = "enq"]
-                /\ UNCHANGED <<cst, cres, ready, attempts, cancelled, connVars, chanVars, netVars, srvVars>>
+                /\ UNCHANGED <<cst, cres, ready, attempts, cancelled, watch, connVars, chanVars, netVars, srvVars>>
 \* case requests <- cancelReq / case <-c.exiting (the cancel notification goes through the main loop)
 CancelGiveUp(k) == /\ cancelSt[k] = "enq" /\ exited /\ cancelSt' = [cancelSt EXCEPT ![k] = "sent"]
-                   /\ UNCHANGED <<cst, cres, ready, attempts, cancelled, connVars, chanVars, netVars, srvVars>>
-\* handleCtxAsync: subscription context cancelled after the call returned: sendRequest directly under writeLk
-SubCtxCancel(k) == /\ cancelSt[k] = "async"
-                   /\ cancelSt' = [cancelSt EXCEPT ![k] = "sent"]
+                   /\ UNCHANGED <<cst, cres, ready, attempts, cancelled, watch, connVars, chanVars, netVars, srvVars>>
+\* handleCtxAsync (one goroutine per registered channel, started by the executor when it registers the channel handler):
+\* once the subscription context is cancelled it writes a cancel frame itself, under writeLk -- also when the caller's own
+\* cancel request already went out through the main loop (the handler then sees two)
+SubCtxCancel(k) == /\ watch[k] = "armed" /\ cancelled[k]
+                   /\ watch' = [watch EXCEPT ![k] = "fired"]
                    /\ c2s' = IF link[gen] = "up" THEN [c2s EXCEPT ![gen] = Append(@, <<"cancel", k>>)] ELSE c2s
-                   /\ UNCHANGED <<cst, cres, ready, attempts, cancelled, connVars, chanVars, s2c, link, cut, faults, srvVars>>
+                   /\ UNCHANGED <<cst, cres, ready, attempts, cancelled, cancelSt, connVars, chanVars, s2c, link, cut, faults, srvVars>>
 
 (* ================================ main loop ================================ *)
 \* case req := <-c.requests (rendez-vous with a caller or with a caller's cancel notification)
 MainRecvReq(k) == /\ AtSelect /\ cst[k] = "enq"
                   /\ cst' = [cst EXCEPT ![k] = "wait"] /\ mainpc' = <<"check", k>>
-                  /\ UNCHANGED <<cres, ready, attempts, cancelled, cancelSt, inflight, gen, incErr, rd, rdGen, rdMsg, execQ, ex, rc, readErrCh, stopped, exited,
+                  /\ UNCHANGED <<cres, ready, attempts, cancelled, cancelSt, watch, inflight, gen, incErr, rd, rdGen, rdMsg, execQ, ex, rc, readErrCh, stopped, exited,
                                  chanVars, netVars, srvVars>>
 MainRecvCancel(k) == /\ AtSelect /\ cancelSt[k] = "enq"
                      /\ cancelSt' = [cancelSt EXCEPT ![k] = "sent"] /\ mainpc' = <<"writecancel", k>>
-                     /\ UNCHANGED <<cst, cres, ready, attempts, cancelled, inflight, gen, incErr, rd, rdGen, rdMsg, execQ, ex, rc, readErrCh, stopped, exited,
+                     /\ UNCHANGED <<cst, cres, ready, attempts, cancelled, watch, inflight, gen, incErr, rd, rdGen, rdMsg, execQ, ex, rc, readErrCh, stopped, exited,
                                     chanVars, netVars, srvVars>>
 \* under writeLk: fail fast when the connection is known to be unusable, else register in-flight (notifications: neither)
 MainReqCheck(k) == /\ mainpc = <<"check", k>>
@@ -136,7 +144,7 @@ MainReqCheck(k) == /\ mainpc = <<"check", k>>
                       ELSE IF incErr THEN /\ ready' = [ready EXCEPT ![k] = Append(@, ConnErr)]
                                           /\ mainpc' = <<"select">> /\ UNCHANGED inflight
                       ELSE inflight' = {e \in inflight : e[1] # k} \cup {<<k, attempts[k]>>} /\ mainpc' = <<"write", k>> /\ UNCHANGED ready
-                   /\ UNCHANGED <<cst, cres, attempts, cancelled, cancelSt, gen, incErr, rd, rdGen, rdMsg, execQ, ex, rc, readErrCh, stopped, exited,
+                   /\ UNCHANGED <<cst, cres, attempts, cancelled, cancelSt, watch, gen, incErr, rd, rdGen, rdMsg, execQ, ex, rc, readErrCh, stopped, exited,
                                   chanVars, netVars, srvVars>>
 \* sendRequest (its own writeLk section): the frame reaches the wire if the current connection is up
 MainWrite(k) == /\ mainpc = <<"write", k>>
@@ -153,7 +161,7 @@ MainWriteCancel(k) == /\ mainpc = <<"writecancel", k>>
 \* notification: req.ready <- resp (no error unless the write failed)
 MainNotifDone(k) == /\ mainpc = <<"notifdone", k>>
                     /\ ready' = [ready EXCEPT ![k] = Append(@, Ok(k))] /\ mainpc' = <<"select">>
-                    /\ UNCHANGED <<cst, cres, attempts, cancelled, cancelSt, inflight, gen, incErr, rd, rdGen, rdMsg, execQ, ex, rc, readErrCh, stopped, exited,
+                    /\ UNCHANGED <<cst, cres, attempts, cancelled, cancelSt, watch, inflight, gen, incErr, rd, rdGen, rdMsg, execQ, ex, rc, readErrCh, stopped, exited,
                                    chanVars, netVars, srvVars>>
 \* case r, ok := <-c.incoming with ok: go readFrame
 MainIncomingMsg == /\ AtSelect /\ rd = "hasmsg" /\ rd' = "reading"
@@ -170,21 +178,26 @@ MainIncomingClosed == /\ AtSelect /\ rd = "closing"
                       /\ rd' = "none"
                       /\ IF Reconnect THEN CloseInFlightEff /\ mainpc' = <<"rc1">>
                                       ELSE mainpc' = <<"exit0">> /\ UNCHANGED <<ready, inflight>>
-                      /\ UNCHANGED <<cst, cres, attempts, cancelled, cancelSt, gen, incErr, rdGen, rdMsg, execQ, ex, rc, readErrCh, stopped, exited, chanVars, netVars, srvVars>>
+                      /\ UNCHANGED <<cst, cres, attempts, cancelled, cancelSt, watch, gen, incErr, rdGen, rdMsg, execQ, ex, rc, readErrCh, stopped, exited, chanVars, netVars, srvVars>>
 \* case rerr := <-c.readError (the read error path marks the connection unusable in readFrame: see RdFrameFail)
 MainReadError == /\ AtSelect /\ readErrCh = 1
                  /\ readErrCh' = 0
                  /\ IF Reconnect THEN CloseInFlightEff /\ mainpc' = <<"rc1">>
                                  ELSE mainpc' = <<"exit0">> /\ UNCHANGED <<ready, inflight>>
-                 /\ UNCHANGED <<cst, cres, attempts, cancelled, cancelSt, gen, incErr, rd, rdGen, rdMsg, execQ, ex, rc, stopped, exited, chanVars, netVars, srvVars>>
+                 /\ UNCHANGED <<cst, cres, attempts, cancelled, cancelSt, watch, gen, incErr, rd, rdGen, rdMsg, execQ, ex, rc, stopped, exited, chanVars, netVars, srvVars>>
 MainCloseChans == /\ mainpc = <<"rc1">> /\ CloseChansEff /\ mainpc' = <<"rc2">>
                   /\ UNCHANGED <<callerVars, inflight, gen, incErr, rd, rdGen, rdMsg, execQ, ex, rc, readErrCh, stopped, exited, sinkQ, recv, netVars, srvVars>>
 MainSpawnRedial == /\ mainpc = <<"rc2">> /\ mainpc' = <<"select">> /\ rc' = "sleep"
                    /\ UNCHANGED <<callerVars, inflight, gen, incErr, rd, rdGen, rdMsg, execQ, ex, readErrCh, stopped, exited, chanVars, netVars, srvVars>>
-\* case <-c.stop: write close frame, conn.Close(), return -> deferred steps
+\* case <-c.stop: ...
 MainStop == /\ AtSelect /\ stopped
-            /\ mainpc' = <<"exit0">> /\ link' = [link EXCEPT ![gen] = IF @ = "up" THEN "fin" ELSE @]
-            /\ UNCHANGED <<callerVars, inflight, gen, incErr, rd, rdGen, rdMsg, execQ, ex, rc, readErrCh, stopped, exited, chanVars, c2s, s2c, cut, faults, srvVars>>
+            /\ mainpc' = <<"stopping">>
+            /\ UNCHANGED <<callerVars, inflight, gen, incErr, rd, rdGen, rdMsg, execQ, ex, rc, readErrCh, stopped, exited, chanVars, netVars, srvVars>>
+\* ... under writeLk: write the close frame, conn.Close(); return -> deferred steps.  Frames the server wrote before are still read
+\* until the socket is closed
+MainStopClose == /\ mainpc = <<"stopping">>
+                 /\ mainpc' = <<"exit0">> /\ link' = [link EXCEPT ![gen] = IF @ = "up" THEN "fin" ELSE @]
+                 /\ UNCHANGED <<callerVars, inflight, gen, incErr, rd, rdGen, rdMsg, execQ, ex, rc, readErrCh, stopped, exited, chanVars, c2s, s2c, cut, faults, srvVars>>
 \* (candidate repair) wait until the frame executor is between frames before shutting the tables down
 MainExitWaitExec == /\ mainpc = <<"exit0">> /\ (~FixExitOrder \/ ex = <<"idle">>)      \* cancel(); <-executorDone
                     /\ mainpc' = <<"exit1">>
@@ -192,13 +205,15 @@ MainExitWaitExec == /\ mainpc = <<"exit0">> /\ (~FixExitOrder \/ ex = <<"idle">>
 MainExitChans == /\ mainpc = <<"exit1">> /\ CloseChansEff /\ mainpc' = <<"exit2">>
                  /\ UNCHANGED <<callerVars, inflight, gen, incErr, rd, rdGen, rdMsg, execQ, ex, rc, readErrCh, stopped, exited, sinkQ, recv, netVars, srvVars>>
 MainExitInFlight == /\ mainpc = <<"exit2">> /\ CloseInFlightEff /\ mainpc' = <<"exited">> /\ exited' = TRUE
-                    /\ UNCHANGED <<cst, cres, attempts, cancelled, cancelSt, gen, incErr, rd, rdGen, rdMsg, execQ, ex, rc, readErrCh, stopped, chanVars, netVars, srvVars>>
+                    /\ UNCHANGED <<cst, cres, attempts, cancelled, cancelSt, watch, gen, incErr, rd, rdGen, rdMsg, execQ, ex, rc, readErrCh, stopped, chanVars, netVars, srvVars>>
 
 (* ================================ redial ================================ *)
 RcDial == /\ rc = "sleep" /\ ~exited /\ mainpc[1] \notin {"exit0", "exit1", "exit2"} /\ gen < MaxGen /\ rc' = "dialed"
           /\ UNCHANGED <<callerVars, inflight, gen, incErr, rd, rdGen, rdMsg, execQ, ex, mainpc, readErrCh, stopped, exited, chanVars, netVars, srvVars>>
-\* under writeLk: c.conn = conn; incomingErr = nil; then go nextMessage
-RcSwap == /\ rc = "dialed" /\ mainpc[1] \notin {"check", "write", "writecancel"}      \* writeLk is free
+\* under writeLk: c.conn = conn; incomingErr = nil; then go nextMessage.  The main loop's two writeLk sections (the
+\* fail-fast check + in-flight registration, and the write) are one atomic step each, so mutual exclusion with them needs
+\* no guard; the swap may fall between them, as in the code (the lock is released in between)
+RcSwap == /\ rc = "dialed"
           /\ gen' = gen + 1 /\ incErr' = FALSE /\ rc' = "none" /\ rd' = "wait" /\ rdGen' = gen + 1
           /\ UNCHANGED <<callerVars, inflight, rdMsg, execQ, ex, mainpc, readErrCh, stopped, exited, chanVars, netVars, srvVars>>
 RcAbort == /\ rc # "none" /\ (exited \/ mainpc[1] \in {"exit0", "exit1", "exit2"}) /\ rc' = "none"
@@ -226,10 +241,15 @@ RdFrameFail == /\ rd = "reading" /\ rdMsg[1] = "trunc"
 (* ================================ frame executor ================================ *)
 \* the executor's context is cancelled when handleWsConn returns (with the repair: before the deferred shutdown steps)
 ExecAlive == IF FixExitOrder THEN mainpc[1] \notin {"exit1", "exit2", "exited"} ELSE mainpc[1] # "exited"
+\* the executor takes the next frame off its queue ...
 ExPop == /\ ex = <<"idle">> /\ Len(execQ) > 0 /\ ExecAlive
-         /\ LET f == Head(execQ) IN
-            /\ execQ' = Tail(execQ)
-            /\ CASE f[1] = "resp" ->
+         /\ ex' = <<"popped", Head(execQ)>> /\ execQ' = Tail(execQ)
+         /\ UNCHANGED <<callerVars, inflight, gen, incErr, rd, rdGen, rdMsg, mainpc, rc, readErrCh, stopped, exited, chanVars, netVars, srvVars>>
+\* ... and only then looks its target up (in-flight table under inflightLk, channel handlers under chanHandlersLk): the main
+\* loop's closeInFlight / closeChans may fall between the two
+ExLookup == /\ ex[1] = "popped"
+            /\ LET f == ex[2] IN
+               CASE f[1] = "resp" ->
                       /\ ex' = IF \E e \in inflight : e[1] = f[2]
                                THEN <<"found", f[2], f[3], (CHOOSE e \in inflight : e[1] = f[2])[2]>> ELSE <<"idle">>
                       /\ UNCHANGED <<chanH, sinkSt, sinkQ>>
@@ -249,18 +269,19 @@ ExPop == /\ ex = <<"idle">> /\ Len(execQ) > 0 /\ ExecAlive
                               /\ sinkSt' = [sinkSt EXCEPT ![h[2]] = "closed"]
                               /\ UNCHANGED sinkQ
                          ELSE UNCHANGED <<chanH, sinkSt, sinkQ>>
-         /\ UNCHANGED <<callerVars, inflight, gen, incErr, rd, rdGen, rdMsg, mainpc, rc, readErrCh, stopped, exited, recv, netVars, srvVars>>
+            /\ UNCHANGED <<callerVars, inflight, gen, incErr, rd, rdGen, rdMsg, execQ, mainpc, rc, readErrCh, stopped, exited, recv, netVars, srvVars>>
 \* retCh(): make the sink; chanHandlers[chid] = handler (overwrites an entry with the same channel id)
 ExRegChan == /\ ex[1] = "found" /\ ex[2] \in Subs /\ ex[3] # 0
              /\ chanH' = {h \in chanH : h[1] # ex[3]} \cup {<<ex[3], ex[2]>>}
              /\ sinkSt' = [sinkSt EXCEPT ![ex[2]] = "open"]
              /\ ex' = <<"foundreg", ex[2], ex[3], ex[4]>>
-             /\ UNCHANGED <<callerVars, inflight, gen, incErr, rd, rdGen, rdMsg, execQ, mainpc, rc, readErrCh, stopped, exited, sinkQ, recv, netVars, srvVars>>
+             /\ watch' = [watch EXCEPT ![ex[2]] = "armed"]         \* go c.handleCtxAsync(chanCtx, frame.ID)
+             /\ UNCHANGED <<cst, cres, ready, attempts, cancelled, cancelSt, inflight, gen, incErr, rd, rdGen, rdMsg, execQ, mainpc, rc, readErrCh, stopped, exited, sinkQ, recv, netVars, srvVars>>
 ExDeliver == /\ \/ (ex[1] = "found" /\ (ex[2] \notin Subs \/ ex[3] = 0))
                 \/ ex[1] = "foundreg"
              /\ ready' = IF ex[4] = attempts[ex[2]] THEN [ready EXCEPT ![ex[2]] = Append(@, Ok(ex[2]))] ELSE ready
              /\ ex' = <<"delivered", ex[2], ex[4]>>
-             /\ UNCHANGED <<cst, cres, attempts, cancelled, cancelSt, inflight, gen, incErr, rd, rdGen, rdMsg, execQ, mainpc, rc, readErrCh, stopped, exited, chanVars, netVars, srvVars>>
+             /\ UNCHANGED <<cst, cres, attempts, cancelled, cancelSt, watch, inflight, gen, incErr, rd, rdGen, rdMsg, execQ, mainpc, rc, readErrCh, stopped, exited, chanVars, netVars, srvVars>>
 ExDelete == /\ ex[1] = "delivered"
             /\ inflight' = IF FixStaleDelete THEN inflight \ {<<ex[2], ex[3]>>} ELSE {e \in inflight : e[1] # ex[2]}
             /\ ex' = <<"idle">>
@@ -282,7 +303,9 @@ BufCtxClose(k) == /\ sinkSt[k] \in {"open", "closed"} /\ cancelled[k]
 (* ================================ server (abstract) ================================ *)
 Send(g, f) == IF link[g] = "up" THEN [s2c EXCEPT ![g] = Append(@, IF cut[g] THEN <<"trunc">> ELSE f)] ELSE s2c
 LinkAfterSend(g) == IF link[g] = "up" /\ cut[g] THEN [link EXCEPT ![g] = "dead"] ELSE link
-SrvRecv(g) == /\ Len(c2s[g]) > 0 /\ link[g] = "up"
+\* a frame the client wrote is processed by the server -- also after the connection has ended, when it had already arrived
+\* (a frame that is lost is one for which this step is never taken)
+SrvRecv(g) == /\ Len(c2s[g]) > 0
               /\ LET f == Head(c2s[g]) IN
                  /\ c2s' = [c2s EXCEPT ![g] = Tail(@)]
                  /\ IF f[1] = "cancel"
@@ -332,10 +355,10 @@ Next ==
   \/ \E k \in Calls : \/ CallStart(k) \/ CallExitErr(k) \/ CallReturn(k) \/ CtxCancel(k) \/ CancelArm(k) \/ CancelGiveUp(k) \/ SubCtxCancel(k)
                       \/ MainRecvReq(k) \/ MainRecvCancel(k) \/ MainReqCheck(k) \/ MainWrite(k) \/ MainWriteCancel(k) \/ MainNotifDone(k)
   \/ MainIncomingMsg \/ MainIncomingClosed \/ MainReadError \/ MainCloseChans \/ MainSpawnRedial
-  \/ MainStop \/ MainExitWaitExec \/ MainExitChans \/ MainExitInFlight
+  \/ MainStop \/ MainStopClose \/ MainExitWaitExec \/ MainExitChans \/ MainExitInFlight
   \/ RcDial \/ RcSwap \/ RcAbort
   \/ RdNext \/ RdErr \/ RdGiveUp \/ RdFrameOk \/ RdFrameFail
-  \/ ExPop \/ ExRegChan \/ ExDeliver \/ ExDelete
+  \/ ExPop \/ ExLookup \/ ExRegChan \/ ExDeliver \/ ExDelete
   \/ \E k \in Subs : BufDeliver(k) \/ BufClose(k) \/ BufCtxClose(k)
   \/ \E g \in Gens : SrvRecv(g) \/ SrvChanStep(g) \/ SrvConnEnd(g) \/ FaultFin(g) \/ FaultCut(g) \/ \E k \in Calls : SrvRespond(g, k)
   \/ Stop
@@ -346,16 +369,16 @@ LibNext ==
   \/ \E k \in Calls : \/ CallExitErr(k) \/ CallReturn(k) \/ CancelArm(k) \/ CancelGiveUp(k) \/ SubCtxCancel(k)
                       \/ MainRecvReq(k) \/ MainRecvCancel(k) \/ MainReqCheck(k) \/ MainWrite(k) \/ MainWriteCancel(k) \/ MainNotifDone(k)
   \/ MainIncomingMsg \/ MainIncomingClosed \/ MainReadError \/ MainCloseChans \/ MainSpawnRedial
-  \/ MainStop \/ MainExitWaitExec \/ MainExitChans \/ MainExitInFlight
+  \/ MainStop \/ MainStopClose \/ MainExitWaitExec \/ MainExitChans \/ MainExitInFlight
   \/ RcDial \/ RcSwap \/ RcAbort \/ RdNext \/ RdErr \/ RdGiveUp \/ RdFrameOk \/ RdFrameFail
-  \/ ExPop \/ ExRegChan \/ ExDeliver \/ ExDelete
+  \/ ExPop \/ ExLookup \/ ExRegChan \/ ExDeliver \/ ExDelete
   \/ \E k \in Subs : BufDeliver(k) \/ BufClose(k) \/ BufCtxClose(k)
   \/ \E g \in Gens : SrvRecv(g) \/ SrvChanStep(g) \/ SrvConnEnd(g) \/ \E k \in Calls : SrvRespond(g, k)
 FairSpec == Spec /\ WF_vars(LibNext) /\ \A k \in Calls : WF_vars(CallStart(k))
 
 (* ================================ properties ================================ *)
 TypeOK == /\ cst \in [Calls -> {"idle", "enq", "wait", "done"}]
-          /\ mainpc[1] \in {"select", "check", "write", "writecancel", "notifdone", "rc1", "rc2", "exit0", "exit1", "exit2", "exited"}
+          /\ mainpc[1] \in {"select", "check", "write", "writecancel", "notifdone", "rc1", "rc2", "stopping", "exit0", "exit1", "exit2", "exited"}
 \* C02: a call only ever returns its own result or a connection / exit error
 OwnResult == \A k \in Calls : cst[k] = "done" => cres[k] \in {Ok(k), ConnErr, ExitErr}
 \* C02: the one-slot mailbox never needs more than two entries (delivery racing closeInFlight) and never holds a foreign result
